@@ -61,21 +61,35 @@ def check_flags(q, where, report, history):
     from qutip import Qobj
     if not isinstance(q, Qobj):
         return
+    try:
+        if not np.all(np.isfinite(q.full())):
+            return          # NaN / inf entries (e.g. sqrtm of a nilpotent matrix): nothing to judge
+    except Exception:
+        return
     t = truth(q)
     if len(t) == 2:
         herm_err, unit_err, scale = (1.0, 1.0, 1.0)
     else:
         herm_err, unit_err, scale = t
     lo, hi = 1e-9 * scale, 1e-6 * scale
+
+    def fresh_pred(kind):
+        """qutip's own predicate recomputed from the bare matrix (its tolerance is
+        absolute, ours relative: for entries of size 1e8 the two legitimately differ)"""
+        try:
+            b = Qobj(q.full(), dims=q.dims)
+            return bool(b.isherm) if kind == "isherm" else bool(b.isunitary)
+        except Exception:
+            return None
     if q._isherm is not None:
         actual = None if lo < herm_err < hi else (herm_err <= lo)
-        if actual is not None and bool(q._isherm) != actual:
+        if actual is not None and bool(q._isherm) != actual and fresh_pred("isherm") != bool(q._isherm):
             report(where, "isherm", bool(q._isherm), actual, q, history)
     if q._isunitary is not None and q.isoper:
         actual = None if lo < unit_err < hi else (unit_err <= lo)
         if q.shape[0] != q.shape[1]:
             actual = False
-        if actual is not None and bool(q._isunitary) != actual:
+        if actual is not None and bool(q._isunitary) != actual and fresh_pred("isunitary") != bool(q._isunitary):
             report(where, "isunitary", bool(q._isunitary), actual, q, history)
 
 
@@ -343,6 +357,11 @@ def run_oracle(seed, budget_chains, report, count=None, only=None):
                 break
             from qutip import Qobj
             if not isinstance(nxt, Qobj):
+                break
+            try:
+                if not np.all(np.isfinite(nxt.full())):
+                    break      # NaN / inf data (sqrtm of a nilpotent matrix, ...): the chain ends here
+            except Exception:
                 break
             check_flags(nxt, "chain:" + (hist[-1] if isinstance(hist[-1], str) else hist[-1][0]),
                         report, list(hist))
